@@ -52,7 +52,3 @@ Fixpoint check_trace (info : list vtr -> vtr) (n : nat) (tol : Q) (s : pstate) (
 (* the whole run of the current tree's buffer pair against the observations *)
 Definition check_run (n c : nat) (g tol : Q) (xs : list vtr) (obs : list obs1) : bool :=
   check_trace (n_step_info g) n tol (pinit c) xs obs.
-
-(* branch bookkeeping for the evidence: does the stream exercise ... *)
-Definition window_starts_terminal (n : nat) (xs : list vtr) : bool :=
-  existsb (fun k => match window n xs k with t :: _ :: _ => any_done t | _ => false end) (seq 0 (length xs + 1 - n)).
